@@ -34,16 +34,28 @@ PAL_MORE = [
 PAL_ODD = [
     ({'k': 'verb', 'v': '1;31'}, ['1;31']),
     ({'k': 'aset', 'v': 'x'}, ['x']),
+    ({'k': 'verb', 'v': '1A'}, ['1A']),
+    ({'k': 'aset', 'v': 'not ok'}, ['not ok']),
     ({'k': 'verb', 'v': '38;5'}, ['38;5']),
     ({'k': 'verb', 'v': '0'}, ['0']),
+    ({'k': 'verb', 'v': '38;5;256'}, ['38;5;256']),
+]
+# forms that denote no setting at all
+PAL_EMPTY = [
+    {'k': 'str', 'v': ';'}, {'k': 'str', 'v': ''}, {'k': 'list', 'v': [{'k': 'str', 'v': ''}]},
+    {'k': 'list', 'v': [{'k': 'list', 'v': []}]}, {'k': 'tuple', 'v': []},
 ]
 
 ALPHA = 'ab -'
 
 
 class Gen:
-    def __init__(self, m, rng, weights, maxlen=8, odd=0.0, more=0.3, anstr=0.15):
+    def __init__(self, m, rng, weights, maxlen=8, odd=0.0, more=0.3, anstr=0.15, alpha=None):
         self.m, self.rng, self.w = m, rng, weights
+        self.alpha = alpha or ALPHA
+        # a few favourite forms per history: the same member/name applied again and again (shared objects, equal
+        # overlapping settings) is what several defects need
+        self.fav = [rng.choice(PAL_CORE + PAL_MORE[:6]) for _ in range(2)]
         self.maxlen, self.odd, self.more, self.anstr = maxlen, odd, more, anstr
         self.oplist = []
 
@@ -54,12 +66,14 @@ class Gen:
 
     def text(self, lo=0):
         n = self.rng.randint(lo, self.maxlen)
-        return ''.join(self.rng.choice(ALPHA) for _ in range(n))
+        return ''.join(self.rng.choice(self.alpha) for _ in range(n))
 
     def setting(self):
         x = self.rng.random()
         if x < self.odd:
             return self.rng.choice(PAL_ODD)
+        if self.rng.random() < 0.35:
+            return self.rng.choice(self.fav)
         if x < self.odd + self.more:
             return self.rng.choice(PAL_MORE)
         return self.rng.choice(PAL_CORE)
@@ -67,10 +81,18 @@ class Gen:
     def settings(self, kmax=2):
         k = 1 if self.rng.random() < 0.7 else self.rng.randint(1, kmax)
         forms, S = [], []
+        if self.odd and self.rng.random() < self.odd / 2:
+            # several odd (invalid / unparsable) settings side by side
+            for f, d in self.rng.sample(PAL_ODD, self.rng.randint(2, 3)):
+                forms.append(f)
+                S += d
+            return forms, S
         for _ in range(k):
             f, d = self.setting()
             forms.append(f)
             S += d
+        if self.rng.random() < 0.04:
+            forms.insert(self.rng.randint(0, len(forms)), self.rng.choice(PAL_EMPTY))
         return forms, S
 
     def regs_of(self, kinds):
@@ -95,7 +117,7 @@ class Gen:
         if x < 0.2:
             return self.rng.choice([HUGE, -HUGE, n + 1, n + 2, -n - 1, -n - 2, n + 7])
         cp = self.change_points(r)
-        if cp and x < 0.55:
+        if cp and x < 0.62:
             c = self.rng.choice(cp) + self.rng.choice([-1, 0, 0, 1])
             return c if self.rng.random() < 0.8 else c - n
         return self.rng.randint(-n, n)
@@ -133,8 +155,11 @@ class Gen:
         if not r:
             return
         o = {'op': 'remove', 'r': r, 'start': self.bound(r, False) if self.rng.random() < 0.8 else 0, 'end': self.bound(r)}
-        if self.rng.random() < 0.3:
+        x = self.rng.random()
+        if x < 0.27:
             o['all'] = True
+        elif x < 0.32:
+            o['sets'], o['S'] = [self.rng.choice(PAL_EMPTY)], []
         else:
             # prefer settings that are actually present
             present = sorted({tuple(self.m.texts.rows[t - 1]) for row in self.m.snaps[r]['s'] for (_, t) in row})
@@ -191,6 +216,13 @@ class Gen:
         r = self.pick()
         if r and self.length(r) <= 5 and self.room(self.length(r) + 1):
             self.do({'op': 'iter', 'r': r})
+
+    def g_iter_join(self):
+        r = self.pick()
+        if r and 1 <= self.length(r) <= 7 and self.room(self.length(r) + 3):
+            e = self.do({'op': 'iter', 'r': r})
+            if e['out'] == 'ok' and e['res']:
+                self.do({'op': 'join', 'cls': 'S', 'items': e['res'], 'tag': 'rejoin_iter:%d' % r})
 
     def other_operand(self, r):
         x = self.rng.random()
@@ -257,6 +289,143 @@ class Gen:
             self.do({'op': 'render', 'r': r, 'how': self.rng.choice(['str', 'to_str']),
                      'optimize': self.rng.random() < 0.5, 'reset_start': self.rng.random() < 0.5,
                      'reset_end': self.rng.random() < 0.5})
+
+    # -- str-like methods ------------------------------------------------------------------------
+    def base_text(self, r):
+        return ''.join(chr(c) for c in self.m.snaps[r]['t'])
+
+    def substr(self, r, lo=0, hi=3):
+        """A substring of the receiver's text (likely to match), or a random short string."""
+        t = self.base_text(r)
+        if t and self.rng.random() < 0.7:
+            i = self.rng.randrange(len(t))
+            return t[i:i + self.rng.randint(max(lo, 1), hi)]
+        return ''.join(self.rng.choice(self.alpha) for _ in range(self.rng.randint(lo, hi)))
+
+    def g_nonuniform(self):
+        """A value with a distinct setting on every character (any offset error becomes visible)."""
+        text = self.text(2)
+        e = self.do({'op': 'new', 'cls': 'S', 'text': text, 'sets': [], 'S': []})
+        r = e['res'][0]
+        codes = ['31', '32', '33', '34', '35', '36', '41', '42', '43', '44', '1', '3', '4', '9', '38;5;%d']
+        for i in range(len(text)):
+            c = codes[i % 14] if self.rng.random() < 0.8 else '38;5;%d' % (i + 1)
+            self.do({'op': 'apply', 'r': r, 'sets': [{'k': 'aset', 'v': c}], 'S': [c], 'start': i, 'end': i + 1, 'top': True})
+        if self.rng.random() < 0.3 and self.room(2):
+            self.do({'op': 'new', 'cls': 'A', 'src': r, 'sets': [], 'S': []})
+
+    def ip(self):
+        return self.rng.random() < 0.4
+
+    def g_case(self):
+        r = self.pick()
+        if r and self.room(2):
+            self.do({'op': 'case', 'r': r, 'm': self.rng.choice(['capitalize', 'casefold', 'lower', 'upper', 'swapcase', 'title']),
+                     'inplace': self.ip()})
+
+    def g_pad(self):
+        r = self.pick()
+        if not r or not self.room(4):
+            return
+        n = self.length(r)
+        meth = self.rng.choice(['ljust', 'rjust', 'center', 'center', 'zfill'])
+        o = {'op': 'pad', 'r': r, 'm': meth, 'width': self.rng.choice([0, n - 1, n, n + 1, n + 2, n + 3, n + 4, n + 7, -3]),
+             'inplace': self.ip()}
+        if meth != 'zfill':
+            x = self.rng.random()
+            if x < 0.6:
+                o['fill'] = self.rng.choice([':', '+', '-', '0', '7', 'x', ' ', '*', '<'])
+            elif x < 0.65:
+                o['fill'] = self.rng.choice(['', 'ab'])
+            o['extend'] = self.rng.random() < 0.65
+        e = self.do(o)
+        if e['out'] == 'ok' and e['res'] and self.rng.random() < 0.7:
+            self.probe_closed(e['res'][0], 'probe_pad_closed')
+
+    def g_strip(self):
+        r = self.pick()
+        if r and self.room(2):
+            t = self.base_text(r)
+            chars = None if self.rng.random() < 0.4 else self.rng.choice(['a', 'ab', ' -', 'b ', '', t[:1] + t[-1:], '\t '])
+            self.do({'op': 'strip', 'r': r, 'm': self.rng.choice(['strip', 'lstrip', 'rstrip']), 'chars': chars, 'inplace': self.ip()})
+
+    def g_rmfix(self):
+        r = self.pick()
+        if r and self.room(2):
+            t = self.base_text(r)
+            meth = self.rng.choice(['removeprefix', 'removesuffix'])
+            k = self.rng.randint(0, 3)
+            s_ = (t[:k] if meth == 'removeprefix' else t[len(t) - k:]) if self.rng.random() < 0.7 else self.substr(r, 0, 2)
+            self.do({'op': 'rmfix', 'r': r, 'm': meth, 's': s_, 'inplace': self.ip()})
+
+    def g_replace(self):
+        r = self.pick()
+        if not r or not self.room(4):
+            return
+        old = self.substr(r, 1, 2) if self.rng.random() < 0.95 else ''
+        x = self.rng.random()
+        if x < 0.45:
+            e = self.do({'op': 'lit', 'text': self.rng.choice(['', '+', 'xy', old + old, 'a'])})
+            new = e['res'][0]
+        elif x < 0.8:
+            forms, S = self.settings()
+            e = self.do({'op': 'new', 'cls': 'A' if self.rng.random() < 0.3 else 'S', 'text': self.rng.choice(['+', 'xy', 'a', '']),
+                         'sets': forms, 'S': S})
+            new = e['res'][0]
+        else:
+            new = self.pick('SAP')
+        if new:
+            self.do({'op': 'replace', 'r': r, 'old': old, 'new': new, 'count': self.rng.choice([-1, -1, -1, 0, 1, 2]), 'inplace': self.ip()})
+
+    def g_expandtabs(self):
+        r = self.pick()
+        if r and self.room(2):
+            self.do({'op': 'expandtabs', 'r': r, 'tabsize': self.rng.choice([0, 1, 2, 4, 8]), 'inplace': self.ip()})
+
+    def g_split(self):
+        r = self.pick()
+        if not r or not self.room(8):
+            return
+        sep = None if self.rng.random() < 0.3 else self.substr(r, 1, 2)
+        self.do({'op': 'split', 'r': r, 'm': self.rng.choice(['split', 'rsplit']), 'sep': sep,
+                 'maxsplit': self.rng.choice([-1, -1, 0, 1, 2, 3])})
+
+    def g_splitlines(self):
+        r = self.pick()
+        if r and self.room(8):
+            self.do({'op': 'splitlines', 'r': r, 'keepends': self.rng.random() < 0.5})
+
+    def g_partition(self):
+        r = self.pick()
+        if r and self.room(4):
+            self.do({'op': 'partition', 'r': r, 'm': self.rng.choice(['partition', 'rpartition']), 'sep': self.substr(r, 1, 2)})
+
+    def g_assign_str(self):
+        r = self.pick('S')
+        if r:
+            n = self.length(r)
+            k = self.rng.choice([0, max(0, n - 2), max(0, n - 1), n, n + 1, n + 3])
+            self.do({'op': 'assign_str', 'r': r, 'text': ''.join(self.rng.choice(self.alpha) for _ in range(k))})
+
+    def g_query(self):
+        r = self.pick()
+        if not r:
+            return
+        from ..ops import QUERY0, QUERY_SUB
+        x = self.rng.random()
+        if x < 0.35:
+            self.do({'op': 'query', 'r': r, 'm': self.rng.choice(QUERY0 + ['len', 'encode'])})
+        elif x < 0.45:
+            o = {'op': 'query', 'r': r, 'm': 'contains'}
+            if self.rng.random() < 0.5:
+                o['sub'] = self.substr(r, 0, 2)
+            else:
+                o['other'] = self.pick('SAP')
+            self.do(o)
+        else:
+            n = self.length(r)
+            bnd = lambda: self.rng.choice([None, None, 0, 1, -1, n, n + 1, -n, -n - 1, n - 1, 2])
+            self.do({'op': 'query', 'r': r, 'm': self.rng.choice(QUERY_SUB), 'sub': self.substr(r, 0, 2), 'start': bnd(), 'end': bnd()})
 
     def g_settings_at(self):
         r = self.pick()
@@ -352,7 +521,7 @@ class Gen:
 
 
 W_BASE = {'new': 1.0, 'new_from': 0.5, 'apply': 3, 'remove': 2, 'clear': 0.2, 'slice': 2, 'index': 0.7, 'clip': 0.7,
-          'iter': 0.2, 'add': 1.5, 'iadd': 1.5, 'join': 0.7, 'split_rejoin': 0.7, 'copy': 0.8, 'render': 0.5}
+          'iter': 0.2, 'add': 1.5, 'iadd': 1.5, 'join': 0.7, 'split_rejoin': 0.7, 'copy': 0.8, 'render': 0.5, 'iter_join': 0.3}
 
 
 def weights(**over):
@@ -363,15 +532,23 @@ def weights(**over):
 
 PROFILES = {
     'C01': weights(render=0, render8=1.5, apply=4, remove=2, slice=1.5, add=1.5, iadd=1.5, copy=0.3),
+    'C15': weights(render=0, render8=3, iadd=3.5, add=1, apply=3, remove=1.5, new=2, slice=1, clip=0.7, replace=0.7, pad=0.5,
+                   simplify=0.4, copy=0.3),
     'C03': weights(render=0, reparse=1.2, simplify=1.2, apply=4, remove=2),
+    'C10': dict(new=1.5, case=2, pad=2, strip=2, rmfix=2, replace=2, expandtabs=1, split=2.5, splitlines=1.5, partition=2, query=8,
+                assign_str=0.5, apply=0.5),
+    'C11': dict(nonuniform=2.5, new=0.5, case=1.5, strip=2, rmfix=2, replace=3.5, expandtabs=1, split=3.5, splitlines=1.5,
+                partition=2.5, assign_str=1.5, apply=1.5, remove=0.5, add=0.5),
+    'C12': dict(nonuniform=2, new=1, pad=6, apply=2, remove=0.5, slice=0.5, add=0.5),
     'C16': weights(matching=5, apply=3, remove=1, slice=0.5, render=0.2),
     'C17': weights(find_settings=5, settings_at=2.5, apply=4, remove=2, slice=0.5, add=0.7, iadd=0.7),
     'C04': weights(slice=5, index=2, clip=2, iter=0.6, apply=3, remove=1.5),
-    'C05': weights(add=4, iadd=4, join=2, split_rejoin=2, slice=2),
+    'C05': weights(add=4, iadd=4, join=2, split_rejoin=2, slice=2, iter_join=1.0),
     'C06': weights(apply=6, remove=1.5, slice=1),
     'C07': weights(remove=5, apply=4, clear=0.5),
     'C08': weights(copy=3, add=2.5, iadd=2.5, join=1.5, slice=3, new_from=2),
-    'C09': weights(),
+    'C09': weights(iter_join=1.0, iadd=2.5, replace=1.0, pad=1.0, split=0.7, partition=0.5, strip=0.5, rmfix=0.5, case=0.3,
+                   assign_str=0.5, query=0.5, matching=0.5, simplify=0.3, expandtabs=0.3, splitlines=0.3),
 }
 
 
